@@ -77,6 +77,7 @@ def classify(clause, lines):
 
 class C03(StdCheck):
     prop = "C03"
+    exhaustive = True
     required_theorems = ["delivery_only_if", "recovery_ack_recipients_partial", "recovery_ack_recipients_counterexample",
                          "no_duplicate_problem", "reminder_only_in_hard_unsuppressed_problem", "reminder_spacing",
                          "model_trace_meets_spec_partial", "model_trace_meets_spec_counterexample"]
@@ -108,7 +109,7 @@ class C03(StdCheck):
                    "user ids are distinct (std::set of users)"]
     rule = ("corpus/C03/*.ops, then exhaustive: every sequence of 4 (thorough: 5) operations over {Problem, Recovery, Acknowledgement request, "
             "timer +60 s, timer +1 s, hard CRITICAL, hard OK, notification period close/open, user 1 disable/enable, force} after a hard CRITICAL, "
-            "followed by a fixed tail, x host/service x interval {0, 60}; plus seeded random cases (10000 of <= 30 / thorough 50000 of <= 60 "
+            "followed by a fixed tail, x host/service x interval {0, 60}; plus seeded random cases (10000 of <= 30 / thorough 100000 of <= 60 "
             "operations): random filters, times windows, intervals {0, 1, 60, 300}, 1-4 users (direct / via a user group / both / not attached), "
             "user and notification periods, all nine types, forced requests, state changes, downtime, acknowledgement, flapping, "
             "unreachability, pending bits, enable flags, pause, imminent check, timer through the pump and directly at arbitrary virtual "
